@@ -38,7 +38,7 @@ def bounds(tier):
 
 def goals(tier):
     return ["op-product", "op-warning", "op-InvalidSequence", "op-DuplicateModules", "op-MissingModule", "op-injected-exception",
-            "cited-world", "rotated-world", "retry-after-failure", "origin-on-first-base-of-fragment"]
+            "cited-world", "rotated-world", "retry-after-failure", "origin-on-first-base-of-fragment", "op-UnusedModules"]
 
 
 # ---------------------------------------------------------------------------------------------
@@ -145,6 +145,7 @@ OPS = [
     ("ok", "v", ["m1", "m2", "m3"], None),
     ("ok-permuted", "v", ["m3", "m1", "m2"], None),
     ("unused", "v", ["m1", "mx", "m2", "m3"], None),
+    ("unused-warning-as-error", "v", ["m1", "mx", "m2", "m3"], ("warnings-as-errors", -1)),
     ("invalid-vector", "vbad", ["m1"], None),
     ("duplicate", "v", ["m1", "m2", "m3", "m3twin"], None),
     ("missing@0", "v", ["m2", "m3"], None),
@@ -165,6 +166,9 @@ def perform(world, opname):
     _, vname, mnames, fault = OPMAP[opname]
     ents = world["ents"]
     mods = [ents[m] for m in mnames]
+    as_errors = bool(fault) and fault[0] == "warnings-as-errors"
+    if as_errors:
+        fault = None
     if fault:
         where, j = fault
         F = faulty_class(where)
@@ -174,7 +178,7 @@ def perform(world, opname):
             fm.is_valid()
             fm._armed = True
         mods[j] = fm
-    o = asm.run_assemble(ents[vname], mods, id="prod", name="prod")
+    o = asm.run_assemble(ents[vname], mods, id="prod", name="prod", warnings_as_errors=as_errors)
     if o.kind == "product":
         return dict(kind="product", unused=o.attrs["unused"], record=snapshot.record_snapshot(o.record))
     if o.kind == "internal-error" and isinstance(o.exc, Injected):
